@@ -364,6 +364,9 @@ func runC17(p *Prog, r *Report) {
 		}
 		r.End()
 	}
+	if want("C17.8") {
+		ruleCacheResize(p, r, "C17.8")
+	}
 	if want("C17.7") {
 		ruleBucketOrder(p, r, "C17.7")
 	}
